@@ -221,6 +221,16 @@ def make_case(rng, method, n, order, complex_valued=False):
                     tree = tree2
                 else:
                     stationary = False
+            if rng.random() < (0.3 if complex_valued else 0.06) and n <= 4:
+                # magnitude classes: the same program in units of 1e-200..1e-150 or 1e150..1e200 (for complex-valued programs
+                # also 1e-25..1e-14): the envelope is relative, absolute tolerances have no business anywhere
+                sc0 = X.scan(tree, xs)
+                if sc0.ok and 1e-30 < sc0.maxabs < 1e30:
+                    if complex_valued and rng.random() < 0.5:
+                        cst = float(10.0 ** rng.uniform(-25, -14))
+                    else:
+                        cst = float(10.0 ** (rng.uniform(150, 200) * rng.choice([-1.0, 1.0])))
+                    tree = ('mul', ('c', cst), tree)
             spec = draw_step_spec(rng, method, n)
             if stationary and rng.random() < 0.5:
                 # a single difference quotient at a zero of the derivative: nothing but the step size can size the estimate
